@@ -14,6 +14,15 @@ types = [
     alias("OptStrAlias", opt(S), P),
     alias("IntListAlias", lst(I), P),
     alias("BinAlias", prim("BINARY"), P),
+    # aliases of every PLAIN-capable primitive (their PLAIN text is the primitive's, not Display's)
+    alias("DtAlias", prim("DATETIME"), P),
+    alias("DtAliasAlias", r("DtAlias"), P),
+    alias("DblAlias", D, P),
+    alias("UuidAlias", prim("UUID"), P),
+    alias("BoolAlias", B, P),
+    alias("SlAlias", prim("SAFELONG"), P),
+    alias("RidAlias", prim("RID"), P),
+    alias("IntAlias", I, P),
     obj("Payload", [
         field("name", S),
         field("count", I),
@@ -26,6 +35,13 @@ types = [
     ], P),
     union("Choice", [field("text", S), field("payload", r("Payload")), field("numbers", st(I))], P),
     # generated types that hold bearer tokens: their Debug rendering must not show the token
+    # mutually recursive objects one of which holds an unsafe string (none of them is safe), and a
+    # union whose listed members are all safe (not safe either: unlisted variants carry anything)
+    obj("Tee", [field("wrapper", opt(r("Wrapper"))), field("secret", S, safety="UNSAFE")], P),
+    obj("Wrapper", [field("tee", opt(r("Tee"))), field("link", opt(r("Link")))], P),
+    obj("Link", [field("wrapper", opt(r("Wrapper")))], P),
+    alias("SafeLabel", S, P, safety="SAFE"),
+    union("SafeChoice", [field("label", r("SafeLabel")), field("level", r("Color"))], P),
     alias("TokenAlias", prim("BEARERTOKEN"), P),
     alias("TokenAliasAlias", r("TokenAlias"), P),
     alias("OptTokenAlias", opt(prim("BEARERTOKEN")), P),
@@ -140,6 +156,11 @@ svc = service("UniversalService", [
         arg("markerAlike", S, "query", "ma", markers=[external("Safe", "com.other", prim("ANY")), external("SafeArg", "com.palantir.logsafe", prim("ANY")), external("Unsafe", "com.palantir.logsafe", prim("ANY"))]),
         arg("realSafe", S, "query", "rs", tags=["incubating", "safe"]),
     ]),
+    # (declared in this order: the generator meets Tee before Wrapper)
+    endpoint("teeBody", "POST", "/u/rec/tee/{id}", [arg("id", I, "path", safety="SAFE"), arg("body", r("Tee"), "body")]),
+    endpoint("wrapperBody", "POST", "/u/rec/wrapper/{id}", [arg("id", I, "path", safety="SAFE"), arg("body", r("Wrapper"), "body")]),
+    endpoint("linkBody", "POST", "/u/rec/link/{id}", [arg("id", I, "path", safety="SAFE"), arg("body", lst(r("Link")), "body")]),
+    endpoint("safeChoiceBody", "POST", "/u/safechoice/{id}", [arg("id", I, "path", safety="SAFE"), arg("body", r("SafeChoice"), "body")]),
     endpoint("safeBody", "POST", "/u/safebody/{id}", [
         arg("id", I, "path", safety="SAFE"),
         arg("body", r("Payload"), "body"),
@@ -172,6 +193,16 @@ svc = service("UniversalService", [
     # exactly one query argument (its wire id differs from its name)
     endpoint("oneQuery", "GET", "/u/one", [arg("pageLimit", opt(I), "query", "limit")], returns=I),
     endpoint("oneQueryRequired", "GET", "/u/onereq", [arg("theId", I, "query", "id")], returns=I),
+    endpoint("aliasParams", "GET", "/u/aliases/{dt}/{dbl}", [
+        arg("dt", r("DtAlias"), "path"),
+        arg("dbl", r("DblAlias"), "path"),
+        arg("u", r("UuidAlias"), "query", "u"),
+        arg("b", r("BoolAlias"), "query", "b"),
+        arg("sl", opt(r("SlAlias")), "query", "sl"),
+        arg("dts", lst(r("DtAliasAlias")), "query", "dts"),
+        arg("rid", r("RidAlias"), "header", "X-Rid"),
+        arg("n", opt(r("IntAlias")), "header", "X-N"),
+    ], returns=S),
     endpoint("context", "GET", "/u/context", [arg("arg", opt(S), "query", "arg")], tags=["server-request-context"]),
     endpoint("noop", "POST", "/u/noop", []),
 ], P)
